@@ -106,27 +106,36 @@ def handleUtxosRequest (j : Json) : Res (List Call) := do
 
 /-! ### `Blockchain.Update`: a neighbour's answer to `GetBlocks` -/
 
-/-- one iteration of `verify`'s loop.  `reject i`: the iteration returns an error (bad previous hash,
-`verifyBlock` refusal, …) — decided by the core layer, arbitrary here. -/
-def verifyStep (lastHost oldHost : List Block) (nb : List (Option Block)) (i : Nat) : Res Block := do
-  let b ← idx "verify: neighborBlocks[i]" nb i
-  let blk ← deref "verify: neighborBlock.PreviousHash() on nil block" b
+/-- the block before `neighborBlocks[i]`: `oldHostBlocks[len-1]` (guarded by `len(oldHostBlocks) != 0`) or `neighborBlocks[i-1]` -/
+def verifyPrevious (oldHost : List Block) (nb : List (Option Block)) (i : Nat) : Res Unit :=
   if i = 0 then
-    if oldHost.length = 0 then pure ()
+    if oldHost.length = 0 then .ok ()
     else do
       let _ ← idx "verify: oldHostBlocks[len(oldHostBlocks)-1]" oldHost (oldHost.length - 1)
-      pure ()
+      .ok ()
   else do
     let pb ← idx "verify: neighborBlocks[i-1]" nb (i - 1)
     let _ ← deref "verify: previousNeighborBlock.Timestamp() on nil block" pb
-    pure ()
-  if (lastHost.length : Int) - 1 < (i : Int) then pure ()
+    .ok ()
+
+/-- `lastHostBlocks[i]`, guarded by `len(lastHostBlocks)-1 < i` (signed arithmetic) -/
+def verifyHostBlock (lastHost : List Block) (i : Nat) : Res Unit :=
+  if (lastHost.length : Int) - 1 < (i : Int) then .ok ()
   else do
     let _ ← idx "verify: lastHostBlocks[i]" lastHost i
-    pure ()
+    .ok ()
+
+/-- one iteration of `verify`'s loop -/
+def verifyStep (lastHost oldHost : List Block) (nb : List (Option Block)) (i : Nat) : Res Block := do
+  let b ← idx "verify: neighborBlocks[i]" nb i
+  let blk ← deref "verify: neighborBlock.PreviousHash() on nil block" b
+  verifyPrevious oldHost nb i
+  verifyHostBlock lastHost i
   useBlock blk
   .ok blk
 
+/-- the loop; `reject i`: iteration `i` returns an error (bad previous hash, `verifyBlock` refusal, …) — decided by
+the core layer, arbitrary here -/
 def verifyLoop (reject : Nat → Bool) (lastHost oldHost : List Block) (nb : List (Option Block)) :
     Nat → Nat → Res (List Block)
   | _, 0 => .ok []
@@ -137,20 +146,24 @@ def verifyLoop (reject : Nat → Bool) (lastHost oldHost : List Block) (nb : Lis
       let r ← verifyLoop reject lastHost oldHost nb (i + 1) fuel
       .ok (blk :: r)
 
+/-- `len(oldHostBlocks) > 0 && (len(neighborBlocks) == 0 || lastHostBlocks[0].PreviousHash() != neighborBlocks[0].PreviousHash())` -/
+def verifyFork (lastHost oldHost : List Block) (nb : List (Option Block)) : Res Unit :=
+  if oldHost.length > 0 then
+    if nb.length = 0 then .err                                   -- "is a fork"
+    else do
+      let h ← idx "verify: lastHostBlocks[0]" lastHost 0
+      let b ← idx "verify: neighborBlocks[0]" nb 0
+      let b ← deref "verify: neighborBlocks[0].PreviousHash() on nil block" b
+      if h.previousHash ≠ b.previousHash then .err                -- "is a fork"
+      else .ok ()
+  else .ok ()
+
 /-- `Blockchain.verify` (guards and index expressions; the ledger rules are `reject`) -/
 def verify (reject : Nat → Bool) (lastHost oldHost : List Block) (nb : List (Option Block)) : Res (List Block) :=
-  if nb.any Option.isNone then .err                            -- "contains a null block"
-  else if oldHost.length = 0 ∧ nb.length < 2 then .err          -- "too short"
+  if nb.any Option.isNone then .err                              -- "contains a null block"
+  else if oldHost.length = 0 ∧ nb.length < 2 then .err            -- "too short"
   else do
-    if oldHost.length > 0 then
-      if nb.length = 0 then .err                               -- "is a fork"
-      else do
-        let h ← idx "verify: lastHostBlocks[0]" lastHost 0
-        let b ← idx "verify: neighborBlocks[0]" nb 0
-        let b ← deref "verify: neighborBlocks[0].PreviousHash() on nil block" b
-        if h.previousHash ≠ b.previousHash then .err            -- "is a fork"
-        else pure ()
-    else pure ()
+    verifyFork lastHost oldHost nb
     let verified ← verifyLoop reject lastHost oldHost nb 0 nb.length
     let last ← idx "verify: neighborBlocks[len(neighborBlocks)-1]" nb (nb.length - 1)
     let _ ← deref "verify: lastNeighborBlock.Timestamp() on nil block" last
